@@ -1416,13 +1416,10 @@ impl<Word, Buf: SafeBuf<Word> + AsMut<[Word]>> WriteWords<Word> for Reverse<Curs
             Err(BoundedWriteError::OutOfSpace)
         } else {
             self.0.pos -= 1;
-            unsafe {
-                // SAFETY: We maintain the invariant `self.0.pos <= self.0.buf.as_mut().len()`
-                // and we just decreased `self.0.pos` (and made sure that didn't wrap around),
-                // so we now have `self.0.pos < self.0.buf.as_mut().len()`.
-                *self.0.buf.as_mut().get_unchecked_mut(self.0.pos) = word;
-                Ok(())
-            }
+            // We cannot use unchecked indexing here: `Cursor::buf_mut` hands out mutable access
+            // to the buffer, so safe code can shrink it below `pos`. Panic in this case.
+            self.0.buf.as_mut()[self.0.pos] = word;
+            Ok(())
         }
     }
 }
@@ -1472,12 +1469,9 @@ impl<Word: Clone, Buf: SafeBuf<Word>> ReadWords<Word, Stack> for Cursor<Word, Bu
             Ok(None)
         } else {
             self.pos -= 1;
-            unsafe {
-                // SAFETY: We maintain the invariant `self.pos <= self.buf.as_ref().len()`
-                // and we just decreased `self.pos` (and made sure that didn't wrap around),
-                // so we now have `self.pos < self.buf.as_ref().len()`.
-                Ok(Some(self.buf.as_ref().get_unchecked(self.pos).clone()))
-            }
+            // We cannot use unchecked indexing here: `Cursor::buf_mut` hands out mutable access
+            // to the buffer, so safe code can shrink it below `pos`. Panic in this case.
+            Ok(Some(self.buf.as_ref()[self.pos].clone()))
         }
     }
 
